@@ -188,6 +188,11 @@ var globals = map[string]string{
 		case 35:
 			ob.Member?(i % 7)
 			ob.Member?(#n)
+		case 37:
+			// adjacent duplicates, so that Unique! has something to compact
+			ob.Add(t % 3)
+			ob.Add(t % 3)
+			ob.Add(t % 3)
 		default:
 			ob.Add(C43Val(t, i))
 			}
@@ -741,7 +746,7 @@ func init() {
 	}
 	om, rm := find("object-mix"), find("record-mix")
 	scenarios = append(scenarios,
-		&scenario{name: "known-unique", known: true, src: om.src, ops: []int{15, 15, 0, 3, 6, 8, 10, 19, 11, 36}},
+		&scenario{name: "known-unique", known: true, src: om.src, ops: []int{15, 15, 37, 37, 0, 3, 6, 8, 10, 19, 11, 36}},
 		&scenario{name: "known-sort-with-block", known: true, src: om.src, ops: []int{14, 14, 0, 3, 8, 11, 17, 19, 36}},
 		&scenario{name: "known-binarysearch-with-block", known: true, src: om.src, ops: []int{23, 23, 23, 0, 4, 6, 36}},
 		// (only small integers are stored: a freshly built string read by the unlocked pack would add unrelated race pairs)
